@@ -257,18 +257,18 @@ Proof.
 Qed.
 
 (* ---- exactly once, in terms of traces ---- *)
-Lemma rel_run1 h st tr : rel st tr -> rel (fst (run1 st h)) (tr ++ snd (run1 st h)).
+Lemma rel_run1 k0 h st tr : rel k0 st tr -> rel k0 (fst (run1 st h)) (tr ++ snd (run1 st h)).
 Proof. intros R. destruct (run1_as_run h st) as [h' ->]. apply rel_run. exact R. Qed.
 
-Lemma rel_trace1 h : rel (fst (run1 init h)) (trace1 h).
-Proof. exact (rel_run1 h init [] rel_init). Qed.
+Lemma rel_trace1 b h : valid_base b -> rel (b - 1) (fst (run1 (init_at b) h)) (trace1_at b h).
+Proof. intros Hb. exact (rel_run1 (b - 1) h (init_at b) [] (rel_init_at b Hb)). Qed.
 
-Lemma rel_nodup st tr : rel st tr -> N.of_nat (length (drawn tr)) <= two32 - 1 -> NoDup (map c_serial (calls st)).
+Lemma rel_nodup k0 st tr : rel k0 st tr -> N.of_nat (length (drawn tr)) <= two32 - 1 -> NoDup (map c_serial (calls st)).
 Proof.
-  intros R Hn. destruct (r_drawn _ _ R) as [n [Hd _]].
+  intros R Hn. destruct (r_drawn _ _ _ R) as [n [Hd _]].
   assert (Hnd : NoDup (call_serials tr)).
-  { apply call_serials_nodup. rewrite Hd in *. rewrite length_first_serials in Hn. apply first_serials_nodup. exact Hn. }
-  rewrite (r_serials _ _ R) in Hnd. unfold cores in Hnd. rewrite map_map in Hnd. exact Hnd.
+  { apply call_serials_nodup. rewrite Hd in *. rewrite length_serials_from in Hn. apply serials_from_nodup. exact Hn. }
+  rewrite (r_serials _ _ _ R) in Hnd. unfold cores in Hnd. rewrite map_map in Hnd. exact Hnd.
 Qed.
 
 Lemma run1_app st a b : run1 st (a ++ b) = let '(s1, o1) := run1 st a in let '(s2, o2) := run1 s1 b in (s2, o1 ++ o2).
@@ -290,36 +290,38 @@ Proof.
     destruct (run1 st1 (repeat EDispatch (S n))) as [s2 o2]. exact IH.
 Qed.
 
-Definition nowrap1 (h : list event) : Prop := N.of_nat (length (drawn (trace1 h))) < two32 - 1.
+Definition nowrap1_at (b : N) (h : list event) : Prop := N.of_nat (length (drawn (trace1_at b h))) < two32 - 1.
+Definition nowrap1 (h : list event) : Prop := nowrap1_at 1 h.
 
 (* A single-threaded program has reached a state (no fault, counter not wrapped)
    in which call i is still awaited (in the table) and a message carrying its
    serial is in the incoming queue.  Dispatching the queue completes call i:
    over the whole trace its slot was assigned exactly once and, if it has a
    notify function, that function ran exactly once. *)
-Theorem queued_reply_completes_once h i c :
-  let st := fst (run1 init h) in
-  fault st = 0 -> nowrap1 h ->
+Theorem queued_reply_completes_once b h i c :
+  valid_base b ->
+  let st := fst (run1 (init_at b) h) in
+  fault st = 0 -> nowrap1_at b h ->
   nth_error (calls st) i = Some c -> c_intable c = true -> (exists m, In m (queue st) /\ m_rs m = c_serial c) ->
-  let tr := trace1 (h ++ repeat EDispatch (length (queue st))) in
+  let tr := trace1_at b (h ++ repeat EDispatch (length (queue st))) in
   count_complete i tr = 1%nat /\ count_notify i tr = b2n (c_hasnotify c).
 Proof.
-  intros st Hf Hnw Hn Ht Hm tr.
-  pose proof (rel_trace1 h) as R. fold st in R.
-  assert (Hok : calls_ok st) by apply (r_ok _ _ R).
-  assert (Hnd : NoDup (map c_serial (calls st))) by (eapply rel_nodup; [exact R|unfold nowrap1 in Hnw; lia]).
+  intros Hb st Hf Hnw Hn Ht Hm tr.
+  pose proof (rel_trace1 b h Hb) as R. fold st in R.
+  assert (Hok : calls_ok st) by apply (r_ok _ _ _ R).
+  assert (Hnd : NoDup (map c_serial (calls st))) by (eapply rel_nodup; [exact R|unfold nowrap1_at in Hnw; lia]).
   pose proof (drain (queue st) st i c Hf Hok Hnd eq_refl Hn Ht Hm) as Hc.
   set (n := length (queue st)) in *.
   assert (Hn1 : exists n', n = S n').
   { destruct Hm as [m [Hin _]]. unfold n. destruct (queue st); [destruct Hin|simpl; eauto]. }
   destruct Hn1 as [n' Hn'].
-  pose proof (rel_run1 (repeat EDispatch n) st (trace1 h) R) as R2.
-  assert (Htr : tr = trace1 h ++ snd (run1 st (repeat EDispatch n))).
-  { unfold tr, trace1. rewrite run1_app. unfold st. destruct (run1 init h) as [s0 o0]. cbn [fst snd].
+  pose proof (rel_run1 _ (repeat EDispatch n) st (trace1_at b h) R) as R2.
+  assert (Htr : tr = trace1_at b h ++ snd (run1 st (repeat EDispatch n))).
+  { unfold tr, trace1_at. rewrite run1_app. unfold st. destruct (run1 (init_at b) h) as [s0 o0]. cbn [fst snd].
     destruct (run1 s0 (repeat EDispatch n)); reflexivity. }
   rewrite <- Htr in R2. set (st' := fst (run1 st (repeat EDispatch n))) in *.
   assert (Hni : no_inflight st') by (unfold st'; rewrite Hn'; apply run1_dispatch_flushed; auto).
-  destruct Hc as [k [Hk Hkc]]. pose proof (r_counts _ _ R2 i) as Hcnt. rewrite Hk in Hcnt. destruct Hcnt as [C1 C2]. rewrite Hkc in *.
+  destruct Hc as [k [Hk Hkc]]. pose proof (r_counts _ _ _ R2 i) as Hcnt. rewrite Hk in Hcnt. destruct Hcnt as [C1 C2]. rewrite Hkc in *.
   unfold cores in Hk. rewrite nth_error_map in Hk. destruct (nth_error (calls st') i) as [c'|] eqn:Ec'; [|discriminate].
   inversion Hk; subst k. simpl in *.
   pose proof (Forall_nth_error _ _ _ _ Hni Ec') as Hi. simpl in Hi. rewrite Hi in C2. simpl in C2.
@@ -371,19 +373,20 @@ Proof.
 Qed.
 
 (* ... so that firing the timeout of a call and then dispatching the queue completes it exactly once *)
-Theorem timeout_completes_once h i c :
-  let st := fst (run1 init h) in
-  fault st = 0 -> nowrap1 (h ++ [EFire i]) -> nth_error (calls st) i = Some c -> c_tadded c = true ->
-  let st1 := fst (run1 init (h ++ [EFire i])) in
-  let tr := trace1 ((h ++ [EFire i]) ++ repeat EDispatch (length (queue st1))) in
+Theorem timeout_completes_once b h i c :
+  valid_base b ->
+  let st := fst (run1 (init_at b) h) in
+  fault st = 0 -> nowrap1_at b (h ++ [EFire i]) -> nth_error (calls st) i = Some c -> c_tadded c = true ->
+  let st1 := fst (run1 (init_at b) (h ++ [EFire i])) in
+  let tr := trace1_at b ((h ++ [EFire i]) ++ repeat EDispatch (length (queue st1))) in
   count_complete i tr = 1%nat /\ count_notify i tr = b2n (c_hasnotify c).
 Proof.
-  intros st Hf Hnw Hn Hta st1 tr.
-  assert (Hok : calls_ok st) by apply (r_ok _ _ (rel_trace1 h)).
+  intros Hb st Hf Hnw Hn Hta st1 tr.
+  assert (Hok : calls_ok st) by apply (r_ok _ _ _ (rel_trace1 b h Hb)).
   assert (E1 : st1 = fst (step1 st (EFire i))).
-  { unfold st1, st. rewrite run1_app. destruct (run1 init h) as [s0 o0]. cbn [fst]. rewrite run1_cons.
+  { unfold st1, st. rewrite run1_app. destruct (run1 (init_at b) h) as [s0 o0]. cbn [fst]. rewrite run1_cons.
     destruct (step1 s0 (EFire i)); reflexivity. }
   destruct (fire_queues st i c Hf Hok Hn Hta) as (Hf1 & [c1 (Hn1 & Ht1 & Hs1 & Hh1)] & Hm). rewrite <- E1 in *.
   rewrite <- Hs1 in Hm. rewrite <- Hh1.
-  exact (queued_reply_completes_once (h ++ [EFire i]) i c1 Hf1 Hnw Hn1 Ht1 Hm).
+  exact (queued_reply_completes_once b (h ++ [EFire i]) i c1 Hb Hf1 Hnw Hn1 Ht1 Hm).
 Qed.
